@@ -12,6 +12,10 @@ NOT_DECIDED = ("equality of the decoded values with the original, byte-for-byte 
                "serde_json) are value-level statements.")
 
 RULES = {
+    "C01.RW": lambda ctx: __import__("rules.foundations", fromlist=["x"]).wire_types_derived_only(ctx, "C01.RW"),
+    # embedded contents are held as views: a view shows exactly the text it was made from
+    "C01.R13": lambda ctx: __import__("rules.svrules", fromlist=["x"]).fresh_views(ctx, "C01.R13"),
+    "C01.R12": lambda ctx: decoderrules.rejections_exact(ctx, "C01.R12"),
     "C01.RG": lambda ctx: __import__("rules.foundations", fromlist=["x"]).no_global_state(ctx, "C01.RG"),
     "C01.R11": lambda ctx: __import__("rules.bldrules", fromlist=["x"]).map_new(ctx, "C01.R11"),
     # the data URL is one of the serialised forms: writer and reader must use the same (standard, padded) alphabet
